@@ -14,7 +14,8 @@ Alphabet
   Every layer that is set gets its own value (layer index + 1), so the observed value names the winning layer.
   An independent key y is written at one rotating layer (value 100 + index).
 Bound
-  ALL subsets of the layers (2^13 per object and mode, 2^8 for the device), both device modes; all subsets of size
+  ALL subsets of the layers (2^13 for kernels and 2^8 for the device in both tiers, 2^13 for memories and streams in the
+  thorough tier / all subsets of size <= 3 in the quick tier), both device modes; all subsets of size
   <= 2 again with the mode selected by a differently spelled name (mode names are matched case-insensitively) and by an
   unavailable mode name (documented fall-back to Serial); for the key defines/VX all subsets of size <= 2 (thorough:
   <= 3, both modes) are additionally compiled into a kernel that echoes the macro.
@@ -227,6 +228,8 @@ def judge(item, lines, crash, stderr):
                     sig = "dominated-entry-won:%s-over-%s:%s" % (g.tag, dom[0].tag if dom else "?", cls)
             else:
                 sig = "foreign-value:%s" % cls
+            if sp:
+                sig = sig.split(":")[0]
             out.append((sig + sp, "%s :: %s shows x=%r, the property allows %s" % (
                 item.describe(), cls, got, sorted(want, key=lambda v: (v is None, v)))))
         # ---- y
@@ -235,7 +238,7 @@ def judge(item, lines, crash, stderr):
             ywant = (100 + item.ylayer) if (yl.src in sources and (yl.generic or yl.own)) else None
             ygot = get_path(tree, prefix + "vy")
             if ygot != ywant:
-                out.append(("independent-key-changed:%s:%s%s" % (yl.tag, cls, sp),
+                out.append((("independent-key-changed:%s:%s" % (yl.tag, cls)) if not sp else ("independent-key-changed" + sp),
                             "%s ; y at %s :: %s shows y=%r, expected %r" % (item.describe(), yl.path, cls, ygot, ywant)))
     if "k" in item.flags and item.obj == "kernel":
         want, cand = expected(L, set(item.subset), (SETTINGS, DEVICE, CALL))
@@ -255,6 +258,8 @@ def judge(item, lines, crash, stderr):
                 sig = "dominated-entry-won:%s-over-%s:compiled-kernel" % (L[kv - 1].tag, dom[0].tag if dom else "?")
             else:
                 sig = "foreign-value:compiled-kernel"
+            if sp:
+                sig = sig.split(":")[0]
             out.append((sig + sp, "%s :: the compiled kernel saw VX=%d, the property allows %s" % (item.describe(), kv, sorted(want))))
     return out, " ".join(summary)
 
@@ -267,7 +272,10 @@ def gen_items(tier, have_openmp):
         for obj in ("device", "kernel", "memory", "stream"):
             n = len(layers_for(obj, M, N, "vx"))
             cnt = 0
-            for size in range(0, n + 1):
+            # the three object kinds run through the same code with a different object name: the quick tier explores the
+            # full power set for the device and for kernels and all subsets of size <= 3 for memories and streams
+            top = n if (tier == "thorough" or obj in ("device", "kernel")) else 3
+            for size in range(0, top + 1):
                 for sub in itertools.combinations(range(n), size):
                     items.append(Item(obj, M, M, N, sub, cnt % n))
                     cnt += 1
@@ -346,7 +354,7 @@ def main():
     have_openmp = any(ln == "MODE OpenMP" for ln in res[0].lines)
 
     items, n_plain = gen_items(c.tier, have_openmp)
-    deadline = c.t0 + c.budget(80, 1100)
+    deadline = time.time() + c.budget(75, 1100)     # measured from the end of the build + harness compile
     results, complete = run(c, exe, items, env, deadline)
 
     outcomes = set()
